@@ -1,8 +1,8 @@
 SPECIFICATION TSpec
-CONSTANTS PatChars = {65, 97, 49, 35, 42, 46, 58, 94, 91, 92, 45, 36}
+CONSTANTS PatChars = {65, 97, 49, 35, 42, 46, 58, 94, 91, 92, 123, 60}
  MaxPat = 2
  Prefixes <- PrefixesSmall
- NameChars = {65, 97, 49, 94, 91, 92, 45, 36, 98}
+ NameChars = {65, 97, 49, 94, 91, 92, 123, 124, 60}
  MaxName = 2
  FileDirs = {36, 65, 94}
  FileDrives = {0, 1}
